@@ -1,5 +1,15 @@
 package PKGNAME
 
+import (
+	"crypto/hmac"
+	"crypto/md5"
+	"crypto/sha256"
+	"crypto/tls"
+	"hash"
+
+	"github.com/wneessen/go-mail/internal/pbkdf2"
+)
+
 // C14: SASL message construction against RFC reference messages.
 
 func hxNewSMTPClient(s *hxSrv) *Client {
@@ -110,4 +120,296 @@ func HarnessC14Plain() {
 		want := append([]byte("AUTH XOAUTH2 "), hxB64Enc(ref)...)
 		svAssert(hxEqBytes(sc.lines[0], want), "C14 XOAUTH2 message differs from the reference")
 	}
+}
+
+const hxHexDigits = "0123456789abcdef"
+
+func hxHex(b []byte) []byte {
+	var out []byte
+	for _, c := range b {
+		out = append(out, hxHexDigits[c>>4], hxHexDigits[c&15])
+	}
+	return out
+}
+
+// CRAM-MD5 (RFC 2195): response = user SP hex(HMAC-MD5(secret, challenge))
+func HarnessC14Cram() {
+	n := svParam("n", 2)
+	user := svBytes("user", n)
+	secret := svBytes("secret", n)
+	chal := svBytes("challenge", svParam("chal", 3))
+	for _, c := range user {
+		svAssume(c != 0)
+	}
+	s := hxNewSrv([]string{"AUTH CRAM-MD5"})
+	s.onlyOK = true
+	sc := &hxAuthScript{replies: []string{"334 " + string(hxB64Enc(chal)), "235 2.7.0 ok"}}
+	s.authFn = sc.handle
+	c := hxNewSMTPClient(s)
+	err := c.Auth(CRAMMD5Auth(string(user), string(secret)))
+	svAssert(err == nil, "C14 CRAM-MD5 honest exchange failed")
+	if err != nil || len(sc.lines) != 2 {
+		svAssert(err != nil, "C14 CRAM-MD5: number of lines")
+		return
+	}
+	svReach("cram-authenticated")
+	svAssert(string(sc.lines[0]) == "AUTH CRAM-MD5", "C14 CRAM-MD5: initial line")
+	mac := hmac.New(md5.New, secret)
+	mac.Write(chal)
+	ref := append(append(append([]byte{}, user...), ' '), hxHex(mac.Sum(nil))...)
+	svAssert(hxEqBytes(sc.lines[1], hxB64Enc(ref)), "C14 CRAM-MD5 response is not base64(user SP hex(HMAC-MD5(secret, challenge)))")
+}
+
+// hxRefPBKDF2 is RFC 8018 PBKDF2 with HMAC over the given hash.
+func hxRefPBKDF2(password, salt []byte, iter, keyLen int, h func() hash.Hash) []byte {
+	hl := h().Size()
+	blocks := (keyLen + hl - 1) / hl
+	var dk []byte
+	for b := 1; b <= blocks; b++ {
+		mac := hmac.New(h, password)
+		mac.Write(salt)
+		mac.Write([]byte{byte(b >> 24), byte(b >> 16), byte(b >> 8), byte(b)})
+		u := mac.Sum(nil)
+		t := append([]byte{}, u...)
+		for i := 2; i <= iter; i++ {
+			m2 := hmac.New(h, password)
+			m2.Write(u)
+			u = m2.Sum(nil)
+			for k := range t {
+				t[k] ^= u[k]
+			}
+		}
+		dk = append(dk, t...)
+	}
+	return dk[:keyLen]
+}
+
+// internal/pbkdf2.Key against the RFC 8018 composition (HMAC as UF).
+func HarnessC14PBKDF2() {
+	pw := svBytes("password", svParam("n", 2))
+	salt := svBytes("salt", svParam("n", 2))
+	iter := 1 + svPick("iterations", svParam("iters", 3))
+	keyLen := 1 + svPick("keylen", svParam("keylens", 8))
+	got := pbkdf2.Key(pw, salt, iter, keyLen, sha256.New)
+	want := hxRefPBKDF2(pw, salt, iter, keyLen, sha256.New)
+	svReach("pbkdf2-compared")
+	svAssert(len(got) == keyLen, "C14 pbkdf2.Key returns the wrong length")
+	svAssert(hxEqBytes(got, want), "C14 pbkdf2.Key differs from RFC 8018 PBKDF2-HMAC")
+}
+
+var hxUserClass [256]byte
+
+func init() {
+	for _, c := range []byte{',', '=', 'a', 'Z', '2'} {
+		hxUserClass[c] = 1
+	}
+}
+
+// hxSaslName applies the RFC 5802 escaping of ',' and '='.
+func hxSaslName(u []byte) []byte {
+	var out []byte
+	for _, c := range u {
+		switch c {
+		case ',':
+			out = append(out, "=2C"...)
+		case '=':
+			out = append(out, "=3D"...)
+		default:
+			out = append(out, c)
+		}
+	}
+	return out
+}
+
+// SCRAM message construction (RFC 5802 / 7677), honest server, two exchanges
+// on the same Auth object.
+func HarnessC14Scram() {
+	rr := hxInstallRand()
+	rr.symPrefix = svParam("noncesym", 0)
+	if rr.symPrefix == 0 {
+		rr.concrete = true
+	}
+	user := svBytes("user", svParam("n", 2))
+	pass := svBytes("password", svParam("pn", 1))
+	for _, c := range pass {
+		svAssume(c >= 0x20)
+		svAssume(c <= 0x7e)
+	}
+	// user name bytes from the classes that matter for saslname escaping
+	for _, c := range user {
+		svAssume(hxUserClass[c] == 1)
+	}
+	plus := svPick("plus", 3) // 0 plain SCRAM, 1 PLUS with tls-unique (TLS 1.2), 2 PLUS with tls-exporter (TLS 1.3)
+	var a Auth
+	var cs *tls.ConnectionState
+	gs2 := []byte("n,,")
+	cbind := []byte("n,,")
+	switch plus {
+	case 0:
+		a = ScramSHA256Auth(string(user), string(pass))
+	case 1:
+		cs = &tls.ConnectionState{Version: tls.VersionTLS12, TLSUnique: []byte{1, 2, 3, 4, 5, 6, 7, 8, 9, 10, 11, 12}}
+		a = ScramSHA256PlusAuth(string(user), string(pass), cs)
+		gs2 = []byte("p=tls-unique,,")
+		cbind = append([]byte("p=tls-unique,,"), cs.TLSUnique...)
+	default:
+		cs = &tls.ConnectionState{Version: tls.VersionTLS13}
+		a = ScramSHA256PlusAuth(string(user), string(pass), cs)
+		gs2 = []byte("p=tls-exporter,,")
+		cbind = append([]byte("p=tls-exporter,,"), hxEKM(cs, "EXPORTER-Channel-Binding", nil, 32)...)
+	}
+	var nonces [][]byte
+	for round := 0; round < svParam("rounds", 2); round++ {
+		s := hxNewSrv([]string{"AUTH SCRAM-SHA-256 SCRAM-SHA-256-PLUS"})
+		s.onlyOK = true
+		salt := svBytes("salt", 1)
+		iters := 1 + svPick("iterations", 2)
+		suffix := []byte("Zq")
+		z := &hxScramHonest{salt: salt, iters: iters, suffix: suffix, password: pass}
+		s.authFn = z.handle
+		c := hxNewSMTPClient(s)
+		err := c.Auth(a)
+		svAssert(err == nil, "C14 SCRAM honest exchange failed")
+		if err != nil {
+			return
+		}
+		svReach("scram-authenticated")
+		// client-first
+		wantFirstBare := append(append(append([]byte("n="), hxSaslName(user)...), ",r="...), hxB64Enc(rr.reads[len(rr.reads)-1])...)
+		svAssert(hxEqBytes(z.clientFirst, append(append([]byte{}, gs2...), wantFirstBare...)), "C14 SCRAM client-first is not gs2-header n=saslname(user),r=base64(fresh random bytes)")
+		nonces = append(nonces, rr.reads[len(rr.reads)-1])
+		// client-final
+		nonce := append(hxB64Enc(rr.reads[len(rr.reads)-1]), suffix...)
+		without := append(append(append([]byte("c="), hxB64Enc(cbind)...), ",r="...), nonce...)
+		authMsg := append(append(append(append(append([]byte{}, wantFirstBare...), ','), z.serverFirst...), ','), without...)
+		salted := pbkdf2.Key(pass, salt, iters, sha256.New().Size(), sha256.New)
+		ck := hmac.New(sha256.New, salted)
+		ck.Write([]byte("Client Key"))
+		clientKey := ck.Sum(nil)
+		hh := sha256.New()
+		hh.Write(clientKey)
+		stored := hh.Sum(nil)
+		sg := hmac.New(sha256.New, stored)
+		sg.Write(authMsg)
+		sig := sg.Sum(nil)
+		proof := make([]byte, len(sig))
+		for i := range sig {
+			proof[i] = clientKey[i] ^ sig[i]
+		}
+		wantFinal := append(append(append([]byte{}, without...), ",p="...), hxB64Enc(proof)...)
+		svAssert(hxEqBytes(z.clientFinal, wantFinal), "C14 SCRAM client-final differs from the RFC 5802 reference (channel binding, nonce or proof)")
+	}
+	if len(nonces) == 2 {
+		svAssert(len(rr.reads) >= 2, "C14 SCRAM retry did not read the random source again")
+		svReach("retry-checked")
+	}
+}
+
+type hxScramHonest struct {
+	salt, suffix, password []byte
+	iters                  int
+	clientFirst            []byte
+	clientFinal            []byte
+	serverFirst            []byte
+	step                   int
+}
+
+func (z *hxScramHonest) handle(s *hxSrv, line string) {
+	c := s.cmds[len(s.cmds)-1]
+	c.verb = "AUTH"
+	l := []byte(line)
+	reply := func(code string, payload []byte) {
+		s.inAuth = code == "334"
+		s.out = append(s.out, code...)
+		s.out = append(s.out, ' ')
+		s.out = append(s.out, hxB64Enc(payload)...)
+		s.out = append(s.out, '\r', '\n')
+	}
+	switch z.step {
+	case 0: // AUTH SCRAM-...
+		z.step = 1
+		reply("334", nil)
+	case 1: // client-first
+		dec, ok := hxB64DecStd(l)
+		if !ok {
+			s.inAuth = false
+			s.out = append(s.out, "535 5.7.8 bad base64\r\n"...)
+			return
+		}
+		z.clientFirst = dec
+		k := len(dec) - 1
+		for k > 0 && !(dec[k-1] == 'r' && dec[k] == '=' && k >= 2 && dec[k-2] == ',') {
+			k--
+		}
+		nonce := append(append([]byte{}, dec[k+1:]...), z.suffix...)
+		z.serverFirst = append(append(append(append(append([]byte("r="), nonce...), ",s="...), hxB64Enc(z.salt)...), ",i="...), byte('0'+z.iters))
+		z.step = 2
+		reply("334", z.serverFirst)
+	case 2: // client-final
+		dec, _ := hxB64DecStd(l)
+		z.clientFinal = dec
+		// the honest server answers with the right signature: compute it like the client must
+		first := z.clientFirst
+		k := 0
+		n := 0
+		for k < len(first) && n < 2 {
+			if first[k] == ',' {
+				n++
+			}
+			k++
+		}
+		firstBare := first[k:]
+		p := len(dec) - 1
+		for p >= 2 && !(dec[p-2] == ',' && dec[p-1] == 'p' && dec[p] == '=') {
+			p--
+		}
+		authMsg := append(append(append(append(append([]byte{}, firstBare...), ','), z.serverFirst...), ','), dec[:p-2]...)
+		salted := pbkdf2.Key(z.password, z.salt, z.iters, sha256.New().Size(), sha256.New)
+		sk := hmac.New(sha256.New, salted)
+		sk.Write([]byte("Server Key"))
+		m2 := hmac.New(sha256.New, sk.Sum(nil))
+		m2.Write(authMsg)
+		z.step = 3
+		reply("334", append([]byte("v="), hxB64Enc(m2.Sum(nil))...))
+	default:
+		s.inAuth = false
+		s.out = append(s.out, "235 2.7.0 ok\r\n"...)
+	}
+}
+
+// hxEKM is the model of (*tls.ConnectionState).ExportKeyingMaterial.
+func hxEKM(cs *tls.ConnectionState, label string, context []byte, length int) []byte {
+	b, _ := hxEKMModel(cs, label, context, length)
+	return b
+}
+
+func hxEKMModel(cs *tls.ConnectionState, label string, context []byte, length int) ([]byte, error) {
+	return svUF("ekm", length, []byte(label), context), nil
+}
+
+// Every SCRAM attempt, including a retry on the same Auth object, uses a
+// nonce that is the base64 of bytes freshly read from the random source.
+func HarnessC14Nonce() {
+	rr := hxInstallRand() // fully symbolic random bytes
+	a := ScramSHA256Auth("user", "pencil")
+	var firsts [][]byte
+	for round := 0; round < 2; round++ {
+		if _, _, err := a.Start(&ServerInfo{Name: "mail.example", TLS: true}); err != nil {
+			svAssert(false, "C14 SCRAM Start failed")
+			return
+		}
+		m, err := a.Next([]byte{}, true)
+		if err != nil {
+			svAssert(false, "C14 SCRAM client-first failed")
+			return
+		}
+		firsts = append(firsts, m)
+		svAssert(len(rr.reads) == round+1, "C14 SCRAM attempt did not read the random source exactly once")
+		if len(rr.reads) != round+1 {
+			return
+		}
+		want := append([]byte("n,,n=user,r="), hxB64Enc(rr.reads[round])...)
+		svAssert(hxEqBytes(m, want), "C14 SCRAM client nonce is not the base64 of the freshly read random bytes")
+	}
+	svReach("two-attempts")
 }
